@@ -75,6 +75,8 @@ var penvs = []penv{
 	{name: "context.r.b=?", p: P, a: A, r: R, c: rec("a", types.Long(1), "r", rec("b", variable("x")), "s", set(types.Long(1), types.Long(2))), vars: []string{"x"}},
 	{name: "context.s=[?,2]", p: P, a: A, r: R, c: rec("a", types.Long(1), "r", rec("b", types.Long(1)), "s", set(variable("x"), types.Long(2))), vars: []string{"x"}},
 	{name: "principal=?,context.a=?", p: variable("p"), a: A, r: R, c: rec("a", variable("x"), "r", rec("b", types.Long(1)), "s", set(types.Long(1), types.Long(2))), vars: []string{"p", "x"}},
+	{name: "principal=?,context.s=[?,2]", p: variable("p"), a: A, r: R, c: rec("a", types.Long(1), "r", rec("b", types.Long(1)), "s", set(variable("x"), types.Long(2))), vars: []string{"p", "x"}},
+	{name: "principal=?,context.s=[principal]", p: variable("p"), a: A, r: R, c: rec("a", types.Long(1), "r", rec("b", types.Long(1)), "s", set(variable("p"), ent("G", "g2"))), vars: []string{"p"}},
 	{name: "principal=?,resource=?", p: variable("p"), a: A, r: variable("res"), c: knownCtx, vars: []string{"p", "res"}},
 	{name: "context.a=context.r.b=?", p: P, a: A, r: R, c: rec("a", variable("x"), "r", rec("b", variable("x")), "s", set(types.Long(1), types.Long(2))), vars: []string{"x"}},
 	{name: "all-unknown", p: variable("p"), a: variable("act"), r: variable("res"), c: variable("ctx"), vars: []string{"p", "act", "res", "ctx"}},
@@ -364,6 +366,51 @@ func depth2Family(lv []*Expr) *core.Family {
 	}
 }
 
+// depth 3: an `if` whose branches are values used by a whole-value consumer.
+func ifValueFamily(lv []*Expr) *core.Family {
+	consumers := []struct {
+		name string
+		f    func(x, l *Expr) *Expr
+	}{
+		{"(if)==l", func(x, l *Expr) *Expr { return Bin(OEq, x, l) }},
+		{"l==(if)", func(x, l *Expr) *Expr { return Bin(OEq, l, x) }},
+		{"(if).contains(l)", func(x, l *Expr) *Expr { return Bin(OContains, x, l) }},
+		{"l in (if)", func(x, l *Expr) *Expr { return Bin(OIn, l, x) }},
+		{"(if).a==l", func(x, l *Expr) *Expr { return Bin(OEq, Access(x, "a"), l) }},
+		{"(if) has a", func(x, l *Expr) *Expr { return Has(x, "a") }},
+	}
+	conds := []*Expr{L(Bool(true)), L(Bool(false)), Bin(OEq, Access(Var("context"), "a"), L(Long(1))), Bin(OEq, Var("principal"), L(Entity("U", "alice")))}
+	nl := len(lv)
+	n := len(consumers) * len(conds) * nl * nl * nl
+	return &core.Family{
+		Name: "depth3-if-value",
+		Desc: fmt.Sprintf("%d whole-value consumers of (if c then t else e) x %d conditions x %d^3 leaves x 2 policy shapes x %d partial environments x all completions", len(consumers), len(conds), nl, len(penvs)),
+		N:    int64(n),
+		Run: func(t *core.T, i int64) {
+			x := int(i)
+			l := lv[x%nl]
+			x /= nl
+			e2 := lv[x%nl]
+			x /= nl
+			t2 := lv[x%nl]
+			x /= nl
+			c := conds[x%len(conds)]
+			x /= len(conds)
+			e := consumers[x].f(If(c, t2, e2), l)
+			nt := false
+			for _, sh := range condShapes[:2] {
+				if checkPolicy(t, sh.name+":"+consumers[x].name, func() *xast.Policy { return sh.mk(e.ToAST()) }, sh.forb, e.String) {
+					nt = true
+				}
+			}
+			if nt {
+				t.Nontrivial()
+			}
+			t.SampleF(e.String)
+		},
+	}
+}
+
 // scope forms x simple conditions.
 func scopeFamily() *core.Family {
 	type sc struct {
@@ -426,16 +473,16 @@ func Check() *core.Check {
 	return &core.Check{
 		ID:    "C06",
 		Title: "Partial evaluation is sound for every completion of the unknowns",
-		Rule: "bounded-exhaustive: policies (scope-form pairs; every operator form over 14 leaves in 4 policy shapes; depth-2 short-circuit/structural parents) x 17 partial environments (unknown principal/action/resource/context, unknowns nested in context records and sets, the same unknown twice, ignored parts) x every completion from universes that hit both branches of the comparisons; kept => residual satisfied iff original; dropped => original never satisfied; ignored part (permit) => original satisfied implies kept and residual satisfied; " +
+		Rule: "bounded-exhaustive: policies (scope-form pairs; every operator form over 14 leaves in 4 policy shapes; depth-2 short-circuit/structural parents) x 19 partial environments (unknown principal/action/resource/context, unknowns nested in context records and sets, the same unknown twice, ignored parts) x every completion from universes that hit both branches of the comparisons; kept => residual satisfied iff original; dropped => original never satisfied; ignored part (permit) => original satisfied implies kept and residual satisfied; " +
 			"a case is non-trivial if under some environment with unknowns the original is satisfied for some completions and not for others",
 		Assumptions: []string{"satisfaction is judged by x/exp/eval.Eval on PolicyToNode (its conformance is C01)", "forbid policies under ignored parts are not constrained by the property and are skipped"},
 		Families: func(tier string) []*core.Family {
 			lv := leaves()
 			fams := []*core.Family{scopeFamily(), condFamily("depth1-unary", gen.Unary, lv, 1), condFamily("depth1-binary", gen.Binary, lv, 2)}
 			if tier == "thorough" {
-				fams = append(fams, condFamily("depth1-if", gen.Ternary, lv, 3), depth2Family(lv[:9]))
+				fams = append(fams, condFamily("depth1-if", gen.Ternary, lv, 3), depth2Family(lv[:9]), ifValueFamily(lv))
 			} else {
-				fams = append(fams, condFamily("depth1-if", gen.Ternary, lv[:8], 3), depth2Family([]*Expr{lv[0], lv[2], lv[4], lv[7], lv[8], lv[9]}))
+				fams = append(fams, condFamily("depth1-if", gen.Ternary, lv[:8], 3), depth2Family([]*Expr{lv[0], lv[2], lv[4], lv[7], lv[8], lv[9]}), ifValueFamily([]*Expr{lv[0], lv[2], lv[3], lv[4], lv[7], lv[12]}))
 			}
 			return fams
 		},
